@@ -19,7 +19,14 @@ class CacheMonitor:
         self.ctr["hook_events"] += 1
         cache = kw["cache"]
         try:
-            self.check_ordering(cache, event)
+            # addresses are the ground truth of the ordering only while the
+            # intervals do not overlap: always at apply_begin; afterwards only
+            # when every block group sits in an interval of its own (a fresh
+            # module); contexts that start from an already rewritten module
+            # are judged at apply_begin only
+            if getattr(self, "ordering_events", None) is None or \
+                    event in self.ordering_events:
+                self.check_ordering(cache, event)
             self.check_functions(cache, event)
             self.check_returns(cache, event)
             self.check_references(cache, event)
@@ -93,6 +100,10 @@ class CacheMonitor:
                             if b.byte_interval.address is not None),
                            key=lambda b: gt_key[id(b)][1:])
             for a, c in zip(order, order[1:]):
+                if gt_key[id(a)][1:] == gt_key[id(c)][1:]:
+                    # same place (zero-sized blocks, empty intervals): the
+                    # order among them is not defined
+                    continue
                 try:
                     _, nxt = ordering.adjacent_blocks(a)
                 except KeyError:
